@@ -78,7 +78,7 @@ def replay_state(chk, store, st, pid, idx, protos):
     return lab
 
 
-def heap_part(chk, pid, store):
+def heap_part(chk, pid, store, thin=1):
     cfgt = ('SPECIFICATION Spec\nCONSTANTS MaxOps = %d\nMaxObjs = 4\nINVARIANT NoSharedMeta\nINVARIANT BufSharing\n'
             'PROPERTY Independent\nPROPERTY ReadOnlyPreserves\nPROPERTY DupBornEqual\n')
     depth = 2 if chk.quick else 3
@@ -91,6 +91,8 @@ def heap_part(chk, pid, store):
             continue
         if store.from_handle and (any(h[0] == 'pickle' for h in st['hist']) or (idx % 7 and chk.quick)):
             continue      # an open file handle cannot be pickled by design; handle-loaded samples: other derivations only
+        if thin > 1 and not any(h[0] in ('pickle', 'copy', 'deepcopy', 'copycopy', 'view') for h in st['hist']):
+            continue      # thinned stores: histories with a duplication only
         idx += 1
         protos = [idx % 5, 5] if chk.quick else [0, 1, 2, 3, 4, 5]
         replay_state(chk, store, st, pid, idx, protos)
@@ -194,6 +196,7 @@ def main(chk, replay=None):
         return
     heap_part(chk, 'C20', hr.Store(float_file=False))
     heap_part(chk, 'C20', hr.Store(float_file=False, from_handle=True))
+    heap_part(chk, 'C20', hr.Store(minimal=True), thin=7 if chk.quick else 1)      # a file with the required keywords only
     if not chk.quick:
         heap_part(chk, 'C20', hr.Store(float_file=True))
     file_level(chk)
